@@ -32,7 +32,7 @@ type ending struct {
 	Wa, Wz  string // site statement
 	Decls   [2][]string
 	Imports []string
-	Marker  string // text that must follow the printed prefix on stdout when the program really ended this way ("" = nothing required)
+	Marker  string // the tool message expected after the prefix (informational)
 }
 
 // expectation encoded in the replay payload: Want >= 0 exact status, -1 any non-zero.
@@ -49,10 +49,16 @@ type kase struct {
 }
 
 func genEnding(t *rapid.T) (ending, int) {
-	kinds := []string{"normal", "normal", "exit", "exit", "exit", "panic", "panic",
-		"trap-divzero", "trap-remzero", "trap-oob", "trap-divzero-i64", "nil-deref", "nil-func",
-		"compile-type", "compile-syntax", "compile-undefined", "stack-overflow"}
-	k := rapid.SampledFrom(kinds).Draw(t, "ending")
+	// two-stage draw (rapid favours small indices): first the property's class, then the concrete kind
+	classes := map[string][]string{
+		"trap":    {"trap-divzero", "trap-oob", "trap-remzero", "trap-divzero-i64", "stack-overflow"},
+		"exit":    {"exit"},
+		"panic":   {"panic", "nil-deref", "nil-func"},
+		"compile": {"compile-type", "compile-syntax", "compile-undefined"},
+		"normal":  {"normal"},
+	}
+	cl := rapid.SampledFrom([]string{"trap", "exit", "panic", "compile", "normal"}).Draw(t, "class")
+	k := rapid.SampledFrom(classes[cl]).Draw(t, "ending")
 	switch k {
 	case "normal":
 		return ending{Kind: k, Class: "normal", Wa: `println("site")`, Wz: `输出("site")`}, 0
@@ -104,8 +110,17 @@ func genProgram(t *rapid.T) (kase, *mini.Unit) {
 	e, want := genEnding(t)
 	o := mini.Opts{Wz: wz, Entry: "main", MaxDepth: 4,
 		Site: mini.Site{Wa: e.Wa, Wz: e.Wz, Terminal: e.Class != "normal"}}
-	if e.Class == "normal" {
+	switch e.Class {
+	case "normal":
 		o.Site.Prints = []string{"site"}
+	case "compile":
+	default:
+		// Bracket the ending with two markers: "@site" on stdout proves that the
+		// ending statement was reached, the absence of "@after" that the program
+		// really stopped there.  Whatever else follows "@site" is the tool's own text.
+		o.Site.Wa = `println("@site"); ` + e.Wa + `; println("@after")`
+		o.Site.Wz = `输出("@site"); ` + e.Wz + `; 输出("@after")`
+		o.Site.Prints = []string{"@site"}
 	}
 	if wz {
 		o.Entry = "主控"
@@ -258,12 +273,12 @@ func verdict(k kase, r runResult) (key, what, skip string) {
 			return "", "", "model: stdout does not start with the modelled prefix: " + show()
 		}
 		rest := r.Stdout[len(prefix):]
-		if k.Class == "normal" || k.Class == "exit" {
+		if k.Class == "normal" {
 			if rest != "" {
 				return "", "", "model: unexpected output after the modelled lines: " + show()
 			}
-		} else if k.Marker != "" && !strings.HasPrefix(rest, k.Marker) {
-			return "", "", "model: expected " + k.Marker + " after the prefix: " + show()
+		} else if strings.Contains(rest, "@after") {
+			return "", "", "model: the program continued past its ending statement: " + show()
 		}
 	}
 	switch {
